@@ -261,8 +261,24 @@ pub fn judge_c02(p: &Prob, ss: &SettingsSpec, r: &Run, bound: f64) -> CaseResult
 }
 
 /// C03: the report is truthful and self-consistent on every terminal status
+/// final internal tau of the run if the homogeneous iterate collapsed below 1e-100 (measured by re-running observed)
+pub fn collapsed_tau(p: &Prob, ss: &SettingsSpec, judged: &Run) -> Option<f64> {
+    let run = run_solver(p, ss, true).ok()?;
+    // the re-run must be the judged run (the judge is also applied to update histories and fault schedules)
+    if run.iterations != judged.iterations || run.r_prim.to_bits() != judged.r_prim.to_bits() || run.r_dual.to_bits() != judged.r_dual.to_bits() || run.obj_val.to_bits() != judged.obj_val.to_bits() {
+        return None;
+    }
+    let last = run.iters.last()?;
+    if last.tau.is_finite() && last.tau < 1e-100 {
+        Some(last.tau)
+    } else {
+        None
+    }
+}
+
 pub fn judge_c03(p: &Prob, ss: &SettingsSpec, r: &Run, bound: f64) -> CaseResult {
     // right-hand sides above the infinity bound are documented to be capped at it
+    let p_orig = p;
     let capped = cap_b(p, bound);
     let p = &capped;
     let st = ss.build();
@@ -284,30 +300,31 @@ pub fn judge_c03(p: &Prob, ss: &SettingsSpec, r: &Run, bound: f64) -> CaseResult
     if infeas {
         ensure!(r.obj_val.is_nan() && r.obj_val_dual.is_nan(), "report-infeasible-objectives-not-nan", "{} {}", r.obj_val, r.obj_val_dual);
     } else {
-        let tol_obj = 1e-9 * (ev.pcost.abs().max(ev.dcost.abs())) + 64.0 * round_allow(ev.terms, ev.mag_xpx + ev.mag_qtx + ev.mag_btz);
-        ensure!(
-            (r.obj_val - ev.pcost).abs() <= tol_obj,
-            "report-obj_val",
-            "obj_val {} vs x'Px/2+q'x {} ({:?})",
-            r.obj_val,
-            ev.pcost,
-            r.status
-        );
-        ensure!(
-            (r.obj_val_dual - ev.dcost).abs() <= tol_obj,
-            "report-obj_val_dual",
-            "obj_val_dual {} vs -b'z-x'Px/2 {} ({:?})",
-            r.obj_val_dual,
-            ev.dcost,
-            r.status
-        );
-        // residual figures
+        // each figure against its own magnitude (a huge dual objective must not excuse the primal one)
+        let tol_p = 1e-9 * ev.pcost.abs() + 64.0 * round_allow(ev.terms, ev.mag_xpx + ev.mag_qtx);
+        let tol_d = 1e-9 * ev.dcost.abs() + 64.0 * round_allow(ev.terms, ev.mag_xpx + ev.mag_btz);
+        // figures below the square root of the smallest normal number cannot be formed through squares
+        const UNDERFLOW: f64 = 1e-150;
         let den_p = f64::max(1.0, ev.normb_inf + ev.normx + ev.norms);
         let den_d = f64::max(1.0, ev.normq_inf + ev.normx + ev.normz);
-        let tp = 1e-6 * ev.res_primal + 64.0 * round_allow(ev.terms, ev.mag_rp) / den_p;
-        let td = 1e-6 * ev.res_dual + 64.0 * round_allow(ev.terms, ev.mag_rd) / den_d;
-        ensure!((r.r_prim - ev.res_primal).abs() <= tp, "report-r_prim", "r_prim {:e} vs recomputed {:e} ({:?})", r.r_prim, ev.res_primal, r.status);
-        ensure!((r.r_dual - ev.res_dual).abs() <= td, "report-r_dual", "r_dual {:e} vs recomputed {:e} ({:?})", r.r_dual, ev.res_dual, r.status);
+        let tp = 1e-6 * ev.res_primal + 64.0 * round_allow(ev.terms, ev.mag_rp) / den_p + UNDERFLOW;
+        let td = 1e-6 * ev.res_dual + 64.0 * round_allow(ev.terms, ev.mag_rd) / den_d + UNDERFLOW;
+        let figures = || -> CaseResult {
+            ensure!((r.obj_val - ev.pcost).abs() <= tol_p, "report-obj_val", "obj_val {} vs x'Px/2+q'x {} ({:?})", r.obj_val, ev.pcost, r.status);
+            ensure!((r.obj_val_dual - ev.dcost).abs() <= tol_d, "report-obj_val_dual", "obj_val_dual {} vs -b'z-x'Px/2 {} ({:?})", r.obj_val_dual, ev.dcost, r.status);
+            ensure!((r.r_prim - ev.res_primal).abs() <= tp, "report-r_prim", "r_prim {:e} vs recomputed {:e} ({:?})", r.r_prim, ev.res_primal, r.status);
+            ensure!((r.r_dual - ev.res_dual).abs() <= td, "report-r_dual", "r_dual {:e} vs recomputed {:e} ({:?})", r.r_dual, ev.res_dual, r.status);
+            Ok(())
+        };
+        if let Err(v) = figures() {
+            // known finding (see known_findings.json): when the homogeneous iterate has collapsed (tau below 1e-100),
+            // the solver's own norms and dot products under/overflow. The collapse is measured, not inferred:
+            // the case is re-run under the iterate observer.
+            if let Some(tau) = collapsed_tau(p_orig, ss, r) {
+                return Err(Violation::new(&format!("report-after-homogeneous-collapse:{}", v.key), format!("final internal tau = {:e}; {}", tau, v.detail)));
+            }
+            return Err(v);
+        }
     }
     // Almost* only when the reduced tolerances are met by the returned point
     if r.status == SolverStatus::AlmostSolved {
